@@ -99,6 +99,7 @@ CANARIES = {
         ("collision-test-case-folded", "stix2/properties.py", "text", ["            if spec_name in spec_dict and spec_dict[spec_name] != hash_v:", "            if spec_name in spec_dict and spec_dict[spec_name].lower() != hash_v.lower():"], "C06.order-free-cleaning"),
     ],
     "C07": [
+        ('is-marked-inherits-by-default', 'stix2/markings/__init__.py', 'text', ['def is_marked(obj, marking=None, selectors=None, inherited=False, descendants=False):', 'def is_marked(obj, marking=None, selectors=None, inherited=True, descendants=False):'], 'C07.query-siblings'),
         ('language-tags-case-folded', 'stix2/markings/utils.py', 'text', ['        return marking.id\n', '        return marking.id.lower()\n'], 'C07.query-siblings'),
         ('object-level-add-lists-duplicates', 'stix2/markings/object_markings.py', 'text', ["    object_markings = set(obj.get('object_marking_refs', []) + marking)", "    object_markings = obj.get('object_marking_refs', []) + marking"], 'C07.normal-form'),
         ('option-rebound-in-loop', 'stix2/markings/granular_markings.py', 'text', ["                    lng = marking.get('lang')\n", "                    lang = marking.get('lang') if lang else None\n                    lng = lang\n"], 'C07.loops-complete'),
@@ -203,6 +204,7 @@ CANARIES = {
         ("version-guard-replaced-by-a-property-name-test", "stix2/base.py", "text", ["                not isinstance(self, stix2.v20._STIXBase20):\n            # (STIX 2.0 has no extension definitions.)", "                \"spec_version\" in self._properties:\n            # (STIX 2.0 has no extension definitions.)"], "C14.version-constants"),
     ],
     "C15": [
+        ('plain-dates-written-a-minute-late', 'stix2/utils.py', 'text', ['        dttm = dt.datetime.combine(dttm, dt.time(0, 0, tzinfo=pytz.utc))', '        dttm = dt.datetime.combine(dttm, dt.time(0, 1, tzinfo=pytz.utc))'], 'C15.utc'),
         ('datetime-rebuilt-from-fields', 'stix2/utils.py', 'text', ['    if isinstance(value, dt.date):\n', '    if isinstance(value, dt.datetime):\n        value = dt.datetime(value.year, value.month, value.day, value.hour, value.minute, value.second, value.microsecond, value.tzinfo)\n    if isinstance(value, dt.date):\n'], 'C15.utc'),
         ('offset-cut-off-before-reading', 'stix2/utils.py', 'text', ['            parsed = dt.datetime.strptime(value, fmt)', "            value = value.replace('+00:00', 'Z')\n            parsed = dt.datetime.strptime(value, fmt)"], 'C15.api-domain'),
         ("millisecond-two-digits", "stix2/utils.py", "int-1", ["format_datetime", "3 -> 2", ":3"], "C15.branch-table"),
